@@ -266,8 +266,21 @@ func checkComments(s *source, src []byte, timeout time.Duration) verdict {
 	default:
 		v.what = "altered"
 	}
+	// only white space changed inside the comments (beyond the forgiven line-edge white
+	// space)?  Then non-blank text is intact: keyed apart from real text loss.
+	if l2, e2 := multisetDiff(stripWS(a), stripWS(b)); len(l2) == 0 && len(e2) == 0 && v.what != "reordered" {
+		v.what = "ws-" + v.what
+	}
 	v.detail = fmt.Sprintf("lost=%q extra=%q", trunc(lost, 4), trunc(extra, 4))
 	return v
+}
+
+func stripWS(xs []string) []string {
+	r := make([]string, len(xs))
+	for i, x := range xs {
+		r[i] = strings.Join(strings.FieldsFunc(x, unicode.IsSpace), "")
+	}
+	return r
 }
 
 func trunc(xs []string, n int) []string {
@@ -286,7 +299,8 @@ func trunc(xs []string, n int) []string {
 
 // ---- comment insertion at token boundaries -------------------------------------
 
-var styles = []string{"blk", "line", "mblk", "hash", "own", "ownblk", "free", "doc2", "blk2", "hash1", "ownhash"}
+var styles = []string{"blk", "line", "mblk", "hash", "own", "ownblk", "free", "doc2", "blk2", "hash1", "ownhash", "rich", "ownrich", "indrich"}
+var richStyles = []string{"rich", "ownrich", "indrich"}
 
 func styleText(style string, k int) string {
 	switch style {
